@@ -45,10 +45,13 @@ func (where Where) Build(builder Builder) {
 }
 
 // containsAndOr reports whether the upper-cased raw SQL contains AND or OR as a
-// separate word, whatever whitespace or parentheses surround it
+// separate word, whatever surrounds it: whitespace, parentheses, quotes, a placeholder, a comment
 func containsAndOr(sql string) bool {
-	isLeft := func(c byte) bool { return c == ' ' || c == '\t' || c == '\n' || c == '\r' || c == ')' }
-	isRight := func(c byte) bool { return c == ' ' || c == '\t' || c == '\n' || c == '\r' || c == '(' }
+	isWord := func(c byte) bool {
+		return c == '_' || c == '$' || (c >= '0' && c <= '9') || (c >= 'A' && c <= 'Z') || (c >= 'a' && c <= 'z') || c >= 0x80
+	}
+	isLeft := func(c byte) bool { return !isWord(c) }
+	isRight := func(c byte) bool { return !isWord(c) }
 	for i := 1; i < len(sql)-2; i++ {
 		if !isLeft(sql[i-1]) {
 			continue
